@@ -210,6 +210,13 @@ func (vc *FnVC) atCall(in *ssa.Call, short string, ord int) {
 		if in.Call.IsInvoke() {
 			env.vars["recv"] = vc.val(in.Call.Value)
 		}
+		if ac.Kind == "lemma" {
+			// atcall F#k lemma L(args): the contract of the verified, effect-free lemma function L
+			// (requires ==> ensures, both read in the current state) is available at this call
+			vc.applyFunctionLemma(ac, env, short)
+			ac.used = true
+			continue
+		}
 		s, err := env.ElabBool(ac.Expr)
 		if err != nil {
 			vc.errorf("atcall %s#%d %q: %v", ac.Callee, ac.Ordinal, ac.Text, err)
